@@ -234,6 +234,9 @@ func (t *tr) expr(e ast.Expr) (string, bool) {
 					r, ok1 := t.expr(sel.X)
 					return "(Int.ofNat " + r + ".length)", ok1
 				}
+				if n, ok := recvTy.(*types.Named); ok && n.Obj().Name() == "Builder" && sel.Sel.Name == "String" && len(x.Args) == 0 {
+					return t.expr(sel.X) // the Builder is modelled by its contents
+				}
 			}
 		}
 		return "", false
@@ -247,6 +250,16 @@ func (t *tr) expr(e ast.Expr) (string, bool) {
 						i, _ := constant.Int64Val(tv.Value)
 						return fmt.Sprintf("(%s.drop %d)", r, i), ok1
 					}
+				}
+			}
+		}
+		// s[1:] for any modelled string
+		if x.High == nil && x.Low != nil {
+			if lty, ok := leanType(t.p.TypesInfo.TypeOf(x.X)); ok && lty == "List Char" {
+				r, ok1 := t.expr(x.X)
+				if tv, ok := t.p.TypesInfo.Types[x.Low]; ok && tv.Value != nil && ok1 {
+					i, _ := constant.Int64Val(tv.Value)
+					return fmt.Sprintf("(%s.drop %d)", r, i), true
 				}
 			}
 		}
